@@ -244,6 +244,9 @@ static int CurlAsyncRequest_processResponse(CurlAsyncRequest *curlResponse) {
 				KSI_LOG_error(clientCtx->ctx,
 						"[%p] Async Curl HTTP: unable to create new KSI_OctetString object. Error: 0x%x.",
 						clientCtx, res);
+				/* The transfer is over: the response can not be picked up later. */
+				handle->state = KSI_ASYNC_STATE_ERROR;
+				handle->err = res;
 				res = KSI_OK;
 				goto cleanup;
 			}
@@ -253,6 +256,9 @@ static int CurlAsyncRequest_processResponse(CurlAsyncRequest *curlResponse) {
 				KSI_LOG_error(clientCtx->ctx,
 						"[%p] Async Curl HTTP: unable to add new response to queue. Error: 0x%x.",
 						clientCtx, res);
+				/* The transfer is over: the response can not be picked up later. */
+				handle->state = KSI_ASYNC_STATE_ERROR;
+				handle->err = res;
 				res = KSI_OK;
 				goto cleanup;
 			}
@@ -296,7 +302,11 @@ static size_t curlCallback_receive(char *ptr, size_t size, size_t nmemb, void *u
 	if (totalCount > curlReq->cap) {
 		size_t newCap = totalCount + 255;
 		tmp_buffer = KSI_calloc(newCap, sizeof(unsigned char));
-		if (tmp_buffer == NULL) goto cleanup;
+		if (tmp_buffer == NULL) {
+			/* Signal the error to libcurl: for the first chunk the total count equals the received count. */
+			totalCount = bytesReceived + 1;
+			goto cleanup;
+		}
 		curlReq->cap = newCap;
 
 		memcpy(tmp_buffer, curlReq->raw, curlReq->len);
